@@ -119,13 +119,28 @@ def count_local(h, run=None):
     return None, None, None
 
 
+ADD_METHODS = ("::saturating_add", "::wrapping_add", "::checked_add", "::strict_add", "::unchecked_add")
+
+
+def _is_add_call(x, local):
+    """`counter.saturating_add(k)` and its siblings (the overflow-explicit spellings of `counter + k`) on the counter itself."""
+    if x[0] != "call" or not x[1].fn.startswith("core::num::<impl ") or not x[1].fn.endswith(ADD_METHODS) or len(x[2]) != 2:
+        return False
+    recv = strip(x[2][0])
+    return recv[0] in ("phi", "local") and recv[1] == local and q.const_int(x[2][1]) is not None and q.const_int(x[2][1]) >= 1
+
+
 def increments_of(h, local):
     out = []
     for bi, si, st in h.stmt_points():
         if st["k"] == "assign" and st["lhs"]["l"] == local and not st["lhs"]["p"] and bi in h.live_blocks():
             e = h.rvalue_expr(st["rv"])
-            if any(x[0] == "bin" and x[1].startswith("Add") for x in walk(e)):
+            if any(x[0] == "bin" and x[1].startswith("Add") for x in walk(e)) or any(_is_add_call(x, local) for x in walk(e)):
                 out.append((bi, st))
+    # `count = count.saturating_add(1)` whose result lands in the counter directly
+    for c in h.calls():
+        if c.bb in h.live_blocks() and not c.dest["p"] and c.dest["l"] == local and _is_add_call(("call", c, c.arg_exprs()), local):
+            out.append((c.bb, {"sp": c.sp}))
     return out
 
 
